@@ -1,7 +1,7 @@
 (** * C14 - status tells the truth about replica sets and pods.
     Property theorems only; each is closed by [exact] of a lemma of [Proofs/]. *)
-From Coq Require Import List ZArith Bool.
-From EDS Require Import Model.Objects Model.Default Model.Rolling Model.Canary Model.ErsReconcile Model.EdsLogic Model.EdsReconcile
+From Coq Require Import List ZArith NArith Bool.
+From EDS Require Import Model.Base Model.Objects Model.Default Model.Rolling Model.Canary Model.ErsReconcile Model.EdsLogic Model.EdsReconcile
      Model.Spec Proofs.Lists Proofs.EdsInv Proofs.C14Proofs.
 Import ListNotations.
 Open Scope Z_scope.
@@ -48,3 +48,20 @@ Theorem C14_active_counts : forall rs now items,
   0 <= k_available k /\ k_available k <= k_ready k /\ k_ready k <= k_created k /\ k_created k <= k_nodes k.
 Proof. exact rolling_counts_ordered. Qed.
 Print Assumptions C14_active_counts.
+
+(** the conditions clause, with the reason: while a canary strategy is set and the canary is paused and not failed,
+    the Canary-Paused condition of every status written is True and names the reason the canary is paused for now
+    (the replica set's own condition, else the annotation's reason) - also when it was True before for another reason *)
+Theorem C14_paused_condition_names_reason : forall sn pl st',
+  eds_sync sn = Ok pl -> In st' (statuses_of (ep_writes pl)) ->
+  exists e uptodate current,
+    es_obj sn = Some e /\
+    let rss := rs_of_eds e (es_rss sn) in
+    last_such (rs_up_to_date e) rss = Some uptodate /\
+    current = fst (select_current (e_annots e) (st_canary (e_strategy e))
+                     (last_such (fun r => N.eqb (r_name r) (es_active (e_status e))) rss) uptodate (es_now sn)) /\
+    let f := facts_of (e_annots e) (st_canary (e_strategy e)) current uptodate in
+    (sf_canary_strategy f = true -> spec_cond_paused f = true ->
+     exists c, get_cond (es_conds st') ECT_CanaryPaused = Some c /\ c_status c = CTrue /\ c_reason c = sf_reason f).
+Proof. exact paused_condition_reason. Qed.
+Print Assumptions C14_paused_condition_names_reason.
